@@ -207,8 +207,27 @@ func (i *interpreter) valueEqualTerm(x, y value) *Term {
 }
 
 // abstractHash returns the 32 pseudo-bytes of H(input).
+// concHash: a SHA-256 computed natively on a concrete input on this path.  An abstract hash is related to
+// it by injectivity: H(x) = H(c) iff x = c (decided, forking); if x = c the hash IS the real digest.
+type concHash struct {
+	in  []value
+	out array
+}
+
 func (i *interpreter) abstractHash(input []value) array {
 	in := append([]value{}, input...)
+	for _, c := range i.concHashes {
+		if len(c.in) != len(in) {
+			continue
+		}
+		eq := i.elemsEqual(in, c.in)
+		if eq.IsFalse() {
+			continue
+		}
+		if i.decide(eq, "hash input equals a concrete hash input") {
+			return append(array{}, c.out...)
+		}
+	}
 	for _, h := range i.hashes {
 		eq := i.elemsEqual(h.elems, in)
 		if eq.IsFalse() {
@@ -331,7 +350,22 @@ func init() {
 		if hasAbstract(s) {
 			return fr.i.abstractHash(s)
 		}
-		return sha256Native(valueToBytes(args[0]))
+		i := fr.i
+		// an earlier abstract hash of an input that may equal this concrete one: on the branch where it does,
+		// the pseudo-bytes handed out earlier cannot be reconciled with the real digest
+		for _, h := range i.hashes {
+			if len(h.elems) != len(s) {
+				continue
+			}
+			if eq := i.elemsEqual(h.elems, s); !eq.IsFalse() && i.decide(eq, "concrete hash input equals an abstract one") {
+				panic(unsupported("concrete hash of an input equal to an earlier abstract hash input"))
+			}
+		}
+		out := sha256Native(valueToBytes(args[0]))
+		if len(s) <= 128 && len(i.concHashes) < 4096 {
+			i.concHashes = append(i.concHashes, concHash{in: append([]value{}, s...), out: out})
+		}
+		return out
 	}
 }
 
